@@ -134,7 +134,11 @@ func (c *c05) Run(cs core.Case) core.Result {
 		}
 	}
 	p2SymlinkInputs = p.Seed%5 == 2
-	env, err := newP2Env(set, "out", g)
+	outBase := "out"
+	if p.Seed%3 == 0 {
+		outBase = []string{"out 100%", "o%sut", "%d"}[(p.Seed/3)%3]
+	}
+	env, err := newP2Env(set, outBase, g)
 	p2PreCreate = nil
 	p2SymlinkInputs = false
 	if env != nil {
@@ -177,7 +181,7 @@ func (c *c05) Run(cs core.Case) core.Result {
 	for _, f := range set.Files {
 		in = append(in, par2rw.InFile{Name: f.Name, Data: f.Data})
 	}
-	problems, nb := par2rw.ValidateCreated(set.SliceSize, in, set.Blocks, "out.par2", created, checkBlocks)
+	problems, nb := par2rw.ValidateCreated(set.SliceSize, in, set.Blocks, outBase+".par2", created, checkBlocks)
 	for _, pr := range problems {
 		r.Violate("nonconformant|"+classify(pr), "%s  [set %v g=%d]", pr, setSummary(set), g)
 	}
